@@ -7,7 +7,4 @@ CONSTANTS
 INVARIANT TableAtDone
 INVARIANT TableStaysOK
 INVARIANT LookupsOK
-INVARIANT Progress
-INVARIANT OnePattern
-INVARIANT TypeOK
 CHECK_DEADLOCK FALSE
